@@ -47,8 +47,13 @@ def write_evidence(ctx, cp, level_text, violations, xinfo, assumptions, broken=N
     ev = dict(property_id=ctx.prop_id, tier=ctx.tier, seed=ctx.seed, level='proof',
               coverage=cov, assumptions=assumptions + list(ctx.extra.get('assumptions', [])),
               wall_s=round(time.time() - ctx.t0, 2), violations=violations)
-    os.makedirs(os.path.join(core.VERIF, 'evidence'), exist_ok=True)
-    with open(os.path.join(core.VERIF, 'evidence', ctx.prop_id + '.json'), 'w') as f:
+    # /verif/evidence is only ever written by a run against /repo itself in its committed state:
+    # development runs against a scratch tree (VERIF_REPO) and the seeded-change sweep (which
+    # patches /repo temporarily) write their evidence elsewhere
+    evdir = os.environ.get('VERIF_EVIDENCE_DIR') or (
+        '/tmp/verif-evidence-scratch' if os.environ.get('VERIF_REPO') else os.path.join(core.VERIF, 'evidence'))
+    os.makedirs(evdir, exist_ok=True)
+    with open(os.path.join(evdir, ctx.prop_id + '.json'), 'w') as f:
         json.dump(ev, f, indent=1, sort_keys=True)
 
 
